@@ -363,6 +363,8 @@ class Evaluator:
         if isinstance(st, InlineJump):
             # end of an expanded helper (a former `return`): leaves the enclosing InlineBlock
             return [Outcome("jump", None, None, list(self.events), env, list(self.conds))]
+        if isinstance(st, (ast.Break, ast.Continue)):
+            return [Outcome("break" if isinstance(st, ast.Break) else "continue", None, None, list(self.events), env, list(self.conds))]
         if isinstance(st, ast.Return):
             v = self.eval(st.value, env, scope) if st.value is not None else Const(None)
             return [Outcome("return", v, None, list(self.events), env, list(self.conds))]
@@ -430,8 +432,10 @@ class Evaluator:
                         self.events, self.conds = ev_, cd_
                         self.assign(st.target, item if not isinstance(it, Const) else Const(item), e_, scope)
                         for o in self.exec_block(st.body, e_, scope):
-                            if o.kind == "fall":
+                            if o.kind in ("fall", "continue"):
                                 nxt.append((o.env or e_, o.events, o.conds))
+                            elif o.kind == "break":
+                                final.append(Outcome("fall", None, None, o.events, o.env or e_, o.conds))
                             else:
                                 final.append(o)
                     cur_envs = nxt
@@ -986,6 +990,14 @@ class Evaluator:
             if owner is None and recv.id in cur.vars:
                 owner = cur
             cur = cur.parent
+        if isinstance(base, Const) and isinstance(base.v, (set, frozenset)) and attr == "add" and len(args) == 1 and isinstance(args[0], Const):
+            try:
+                new_s = set(base.v) | {args[0].v}
+            except TypeError as ex:
+                raise AbsRaise("TypeError", str(ex))
+            assert owner is not None
+            owner.vars[recv.id] = Const(new_s)
+            return Const(None)
         if isinstance(base, Const) and isinstance(base.v, list):
             elems: List[Any] = [Const(x) for x in base.v]
         elif isinstance(base, list):
